@@ -296,11 +296,10 @@ Definition pview (ro : role) (r : srec) : rfc_state * closed_how :=
 Definition lenient (ro : role) (r : srec) (t : ftype) : bool :=
   s_ppush r
   || is_local_error (s_state r)
-  || (s_popen r && negb (is_server ro) && match t with PUSH_PROMISE => true | _ => false end)
   || (match s_state r, t with
       | Idle, _ => true
       | ReservedLocal, HEADERS => true
-      | ReservedRemote, (WINDOW_UPDATE | PUSH_PROMISE) => true
+      | ReservedRemote, WINDOW_UPDATE => true
       | _, _ => false
       end).
 
@@ -356,11 +355,9 @@ Definition msg_fine (l : label) (s : state) : bool :=
 Lemma wf_shape_rec ro sid r : wf_shape ro sid r = true -> wf_rec ro r = true.
 Proof.
   unfold wf_shape, wf_rec. destruct (s_popen r); [|reflexivity].
-  destruct (s_ppush r); cbn [negb andb]; [rewrite andb_false_r; discriminate|].
-  destruct (s_state r) as [| | |lo re|p|p|c]; try discriminate; cbn; auto;
+  destruct (s_ppush r); cbn [negb andb]; [rewrite !andb_false_r; discriminate|].
+  destruct (s_state r) as [| | |lo re|p|p|c]; try destruct lo; try destruct re; try destruct p;
     destruct (is_local_init ro sid), (is_server ro); cbn; try discriminate; auto.
-  - destruct lo, re; cbn; try discriminate; auto.
-  - destruct p; cbn; try discriminate; auto.
 Qed.
 
 Definition tolerable (v : verdict) : bool := match v with accept | tolerate => true | _ => false end.
@@ -417,6 +414,7 @@ Proof.
   - (* PP *)
     unf. destruct (sid =? 0); [discriminate|].
     destruct (iget st sid) as [[k r]|] eqn:Ei; [|use_res1 Hs; split; auto; intros; apply same_or_failed_refl].
+    destruct (negb (is_local_init (c_role st) sid) || s_popen r); [use_res1 Hs; split; auto; intros; apply same_or_failed_refl|].
     destruct (c_recv_max st <? sid); [use_res1 Hs; split; auto; intros; apply same_or_failed_refl|].
     pose proof (recv_open_id_slab st promised true (p_can_open o)) as Ho.
     destruct (is_local_error (s_state r)).
@@ -447,9 +445,9 @@ Theorem recv_conn_error_required st l sid t k r st' outs :
   step st l = Ok st' outs ->
   is_conn_error (result_of outs) = true /\ has_app outs = false /\ st' = st.
 Proof.
-  intros Hl Hi Hmax Hwf Hv Hlen Hs. apply wf_shape_rec in Hwf. unfold wf_rec in Hwf.
+  intros Hl Hi Hmax Hwf0 Hv Hlen Hs. pose proof (wf_shape_rec _ _ _ Hwf0) as Hwf. unfold wf_rec in Hwf.
+  apply andb_true_iff in Hwf0. destruct Hwf0 as [Hwf0 _].
   unfold lenient in Hlen. apply orb_false_iff in Hlen. destruct Hlen as [Hlen L4].
-  apply orb_false_iff in Hlen. destruct Hlen as [Hlen L3].
   apply orb_false_iff in Hlen. destruct Hlen as [L1 L2].
   unfold pview in Hv. rewrite L1, L2 in Hv. rewrite andb_true_r in Hv.
   destruct l; cbn [recv_frame] in Hl; try discriminate; inversion Hl; subst; clear Hl; cbn [step] in Hs;
@@ -457,9 +455,12 @@ Proof.
     (destruct (sid =? 0); [try discriminate|]);
     try (use_res1 Hs; cbn; auto; fail);
     destruct (is_server (c_role st)) eqn:Er; destruct (s_popen r) eqn:Ep;
-    kill_state r Hv L4; cbn in Hs, L2, L3, Hwf, Hv; try discriminate;
+    kill_state r Hv L4; cbn in Hs, L2, Hwf, Hwf0, Hv; try discriminate;
     try (destruct (is_local_init _ sid); discriminate);
-    peel Hs; try (use_res1 Hs); rewrite ?(put_same st k r) by (eapply iget_kget; eauto); cbn; auto.
+    peel Hs; try (use_res1 Hs);
+    try (exfalso; repeat match goal with H : context [_ || true] |- _ => rewrite orb_true_r in H end;
+         try (apply negb_true_iff in Hwf0; rewrite Hwf0 in *; cbn in *); congruence);
+    rewrite ?(put_same st k r) by (eapply iget_kget; eauto); cbn; auto.
 Qed.
 
 (* T2: a frame on an identifier that was never used *)
